@@ -14,7 +14,7 @@ import (
 
 func init() {
 	register("C09", &propDef{
-		Run: checkC09,
+		Run:         checkC09,
 		Explanation: "Static decision of the structural clauses of C09. (1) No request-derived path: every file-system path operand in internal/hsrv (os.Open/Stat/ReadFile/..., http.Dir, os.DirFS, http.ServeFile) derives only from Server.fdir or Server.tmplf (through at most path cleaning), never from the request; http.ServeFile, which consults the request path itself, is not used; what http.ServeContent sends is the file opened from Server.fdir and http.FileServer's root is http.Dir(Server.fdir); both fields are written only in New. (2) Route table: all patterns are constants; /i/{id}, /o/{id}, /io and /c are registered unconditionally with handlers that reach the broker / the script template and no file-serving call; the only pattern whose handler reaches a file-serving call is the catch-all \"/\", registered under the test Server.fdir != \"\" on the field itself. (3) In the file handler the operator notice dominates every use of the response writer. Path cleaning and confinement inside net/http (ServeMux, http.Dir, FileServer) are trusted.",
 		Assumptions: []string{"net/http's ServeMux gives the more specific pattern precedence; http.Dir and http.FileServer confine requests to the root"},
 	})
